@@ -21,7 +21,7 @@ def edge_trees():
         _t("E_range_bound", Cfg("X", I, "x", defaults=[("4", None)]), Cfg("Y", I, "y", ranges=[("X", "100", None)], defaults=[("1", None)]), Cfg("YH", I, "yh", ranges=[("0", "X", None)], defaults=[("50", None)])),
         _t("E_range_bound_dep", Cfg("G", B, "g", defaults=[("y", None)]), Cfg("X", I, "x", depends=["G"], defaults=[("8", None)]), Cfg("Y", I, "y", ranges=[("0", "X", None)], defaults=[("5", None)]), Cfg("XH", H, "xh", depends=["G"], defaults=[("0x20", None)]), Cfg("YH", H, "yh", ranges=[("0x0", "XH", None)], defaults=[("0x5", None)])),
         _t("E_setdef_range", Cfg("X", B, "x", defaults=[("y", None)], set_defaults=[("F", "9.5", None), ("N", "50", None), ("HX", "0x50", None)]), Cfg("F", F, "f", ranges=[("-1.0", "5.0", None)], defaults=[("1.0", None)]), Cfg("N", I, "n", ranges=[("-5", "10", None)], defaults=[("1", None)]), Cfg("HX", H, "hx", ranges=[("0x0", "0x10", None)], defaults=[("0x1", None)])),
-        _t("E_range_cond", Cfg("X", B, "x"), Cfg("Y", I, "y", ranges=[("0", "10", "X"), ("0", "100", None)], defaults=[("50", None)])),
+        _t("E_range_cond", Cfg("X", B, "x"), Cfg("Y", I, "y", ranges=[("0", "10", "X"), ("0", "100", None)], defaults=[("50", None)]), Cfg("YH", H, "yh", ranges=[("0x0", "0x8", "X"), ("0x0", "0x20", None)], defaults=[("0x10", None)])),
         _t("E_select", Cfg("X", B, "x", selects=[("Y", None)]), Cfg("D", B, "d"), Cfg("Y", B, "y", depends=["D"]), Cfg("Z", B, "z", depends=["Y"], defaults=[("y", None)])),
         _t("E_select_cond", Cfg("X", B, "x"), Cfg("G", B, "g", selects=[("Y", "X")]), Cfg("Y", B, "y"), Cfg("Z", I, "z", defaults=[("2", "Y"), ("1", None)])),
         _t("E_imply", Cfg("X", B, "x", implies=[("Y", None)]), Cfg("D", B, "d", defaults=[("y", None)]), Cfg("Y", B, "y", depends=["D"]), Cfg("Z", B, None, defaults=[("y", "Y")])),
